@@ -51,6 +51,42 @@ theorem swapEffs_flow {b b' : Bank} {sender rcpt esc : Addr} {dS dB : Denom} {so
     flow_simp at f
     omega
 
+/-- the exact balance changes of a swap whose payer and recipient are not the escrow -/
+theorem swapEffs_exact {b b' : Bank} {sender rcpt esc : Addr} {dS dB : Denom} {sold bought : Nat}
+    (h : b.applyAll (swapEffs sender rcpt esc dS sold dB bought) = .ok b')
+    (hse : sender ≠ esc) (hre : rcpt ≠ esc) (hd : dS ≠ dB) :
+    b'.get esc dS = b.get esc dS + sold ∧ b'.get esc dB + bought = b.get esc dB ∧
+    b'.get rcpt dB = b.get rcpt dB + bought ∧ b'.get sender dS + sold = b.get sender dS := by
+  have flow := Bank.applyAll_flow _ _ _ h
+  have hes : esc ≠ sender := fun e => hse e.symm
+  have her : esc ≠ rcpt := fun e => hre e.symm
+  have hd' : dB ≠ dS := fun e => hd e.symm
+  refine ⟨?_, ?_, ?_, ?_⟩
+  · have f := (flow esc dS).1
+    simp only [swapEffs] at f
+    flow_simp at f
+    simp only [hes, her, hd, false_and, true_and, and_true, and_false, if_false, if_true] at f
+    repeat' split at f
+    all_goals omega
+  · have f := (flow esc dB).1
+    simp only [swapEffs] at f
+    flow_simp at f
+    simp only [hes, her, hd', false_and, true_and, and_true, and_false, if_false, if_true] at f
+    repeat' split at f
+    all_goals omega
+  · have f := (flow rcpt dB).1
+    simp only [swapEffs] at f
+    flow_simp at f
+    simp only [hre, hd', false_and, true_and, and_true, and_false, if_false, if_true] at f
+    repeat' split at f
+    all_goals omega
+  · have f := (flow sender dS).1
+    simp only [swapEffs] at f
+    flow_simp at f
+    simp only [hse, hd, false_and, true_and, and_true, and_false, if_false, if_true] at f
+    repeat' split at f
+    all_goals omega
+
 end Coinswap
 end CV
 
